@@ -51,6 +51,45 @@ Theorem seqno_wraps : forall c, c < w64 -> (c + 1 + w64) mod w64 = (c + 1) mod w
 Proof. exact Proofs.C16.seqno_wraps. Qed.
 Print Assumptions seqno_wraps.
 
+(* ---- Send under publish faults ----
+   [crun (cinit c0) ops]: any history of Sends (Marshal fails / initial publish succeeds / initial
+   publish fails) and retransmissions of already sent messages (publish succeeds / fails) on one
+   channel; [wire] = every publish call (message, sequence number, publisher's answer);
+   [sched] = the messages whose Send reached nextSeqno, with the number the schedule captured. *)
+
+(* the counter only counts, whatever the publisher answers *)
+Theorem counter_counts_sends : forall c0 ops, c0 < w64 ->
+  let st := crun (cinit c0) ops in
+  counter st = (c0 + N.of_nat (length (sched st))) mod w64.
+Proof. exact Proofs.C16.counter_counts_sends. Qed.
+Print Assumptions counter_counts_sends.
+
+(* fresh_seqno under faults: over all histories with arbitrary publish faults (fewer than 2^64
+   sends), two publish calls of one channel carry the same sequence number iff they carry the
+   same message: different messages never share a number, a retransmission never changes it *)
+Theorem wire_seqnos_fresh : forall c0 ops, c0 < w64 ->
+  let st := crun (cinit c0) ops in
+  N.of_nat (length (sched st)) <= w64 ->
+  forall a b, In a (wire st) -> In b (wire st) ->
+    (fst (fst a) = fst (fst b) <-> snd (fst a) = snd (fst b)).
+Proof. exact Proofs.C16.wire_seqnos_fresh. Qed.
+Print Assumptions wire_seqnos_fresh.
+
+(* a receiver fed with everything that was published successfully (first publishes and
+   retransmissions, in any order the history has them) calls its delegate for every message
+   that had a successful publish, never twice for one (sender, seqno), only for published
+   messages, and no message takes another one's place *)
+Theorem delivered_exactly_once_under_faults : forall c0 ops sender, c0 < w64 ->
+  let st := crun (cinit c0) ops in
+  N.of_nat (length (sched st)) <= w64 ->
+  let d := receiver_deliveries sender (wire st) in
+  NoDup d /\
+  (forall id s, In (id, s, true) (wire st) -> In (sender, s) d) /\
+  (forall m, In m d -> fst m = sender /\ exists id, In (id, snd m, true) (wire st)) /\
+  (forall id1 id2 s ok1 ok2, In (id1, s, ok1) (wire st) -> In (id2, s, ok2) (wire st) -> id1 = id2).
+Proof. exact Proofs.C16.delivered_exactly_once_under_faults. Qed.
+Print Assumptions delivered_exactly_once_under_faults.
+
 (* ---- the executable forms used by the correspondence check ---- *)
 Theorem filter_spec_sound : forall c, filter_spec c = true ->
   NoDup (map f_msg (filter f_delivered (fc_calls c))).
@@ -76,3 +115,20 @@ Theorem model_log_nodup : forall threads ops,
   nodup_msgs (map snd (log (run (init threads) ops))) = true.
 Proof. exact Proofs.C16.model_log_nodup. Qed.
 Print Assumptions model_log_nodup.
+
+Theorem fault_spec_sound : forall c, fault_spec c = true ->
+  (forall a b, In a (fa_wire c) -> In b (fa_wire c) ->
+     (fst (fst a) = fst (fst b) <-> snd (fst a) = snd (fst b))) /\
+  NoDup (map snd (fa_delivered c)) /\
+  (fa_flushed c = true -> forall e, In e (fa_wire c) ->
+     count_id (fst (fst e)) (fa_delivered c) =
+     if has_ok (fst (fst e)) (fa_wire c) then 1%nat else 0%nat).
+Proof. exact Proofs.C16.fault_spec_sound. Qed.
+Print Assumptions fault_spec_sound.
+
+Theorem model_wire_fresh : forall c0 ops, c0 < w64 ->
+  let st := crun (cinit c0) ops in
+  N.of_nat (length (sched st)) <= w64 ->
+  wire_fresh (map (fun e : nat * N * bool => (N.of_nat (fst (fst e)), snd (fst e), snd e)) (wire st)) = true.
+Proof. exact Proofs.C16.model_wire_fresh. Qed.
+Print Assumptions model_wire_fresh.
